@@ -86,7 +86,8 @@ def gen_conflict_window(rng, sessions, sel, sizes, next_id):
     other = lambda m: "b" if m == "inbox" else "inbox"  # noqa
     same = [ss for ss in by_mb.values() if len(ss) >= 2]
     kind = rng.choice(["copy_store", "fetch_store", "move_store", "opposite", "expunge_fetch", "copy_expunge",
-                       "search_store", "search_fetch", "expunge_search", "three_way", "three_way", "disjoint", "disjoint"] +
+                       "search_store", "search_fetch", "expunge_search", "three_way", "three_way", "disjoint", "disjoint",
+                       "change_select", "change_select"] +
                       (["copy_late"] * 3 if len(sessions) >= 4 else []))
     cmds = []
     if kind == "copy_late" and same:
@@ -129,6 +130,16 @@ def gen_conflict_window(rng, sessions, sel, sizes, next_id):
             cmds = [dict(base(b, "Expunge", set=[]), pre=[(b, "STORE 1 +FLAGS.SILENT (\\Deleted)")]),
                     dict(follower, delay=rng.choice([0, 0.001, 0.01]))]
             return cmds
+        elif kind == "change_select":
+            # a session (re-)SELECTs while a command of another session that changes the message list is
+            # running or queued ahead of it: what the SELECT announces and what is queued for the session
+            # afterwards must fit one point of the order
+            changer = rng.choice([dict(base(b, "Expunge", set=[]), pre=[(b, f"STORE {rng.randint(1, max(1, sizes[m]))} +FLAGS.SILENT (\\Deleted)")]),
+                                  base(b, "Move", set=[[1, 1]], mbox=other(m)),
+                                  base(b, "Append", mbox=m, set=[], msgid=next_id[0], flags=[])])
+            next_id[0] += 1
+            sel_cmd = base(a, "Select", set=[], mbox=m if rng.random() < 0.75 else other(m))
+            return [changer, dict(sel_cmd, delay=rng.choice([0, 0, 0.001, 0.01]))]
         elif kind == "three_way" and len(sessions) >= 3:
             # two commands that do not overlap each other run together; a third one overlaps only the second
             # (a session that has the other mailbox selected is moved over first)
